@@ -16,7 +16,7 @@
                    nan_ok         NaN other than float("nan") / NaN inside repeated or map  (cls nan-payload, nan-in-container)
    All theorems are about to_dict(include_default_values=False) (the default); obj_eq is Message.__eq__, enc_obj is bytes(). *)
 From BP Require Import Base.Prelude Model.Types Model.Object Model.Eq Model.TimeCore Model.Encode Model.WellFormed Model.Json.
-From BP Require Import Proofs.C04Def Proofs.C04ScalarP Proofs.C04CalP Proofs.C04CalSweepP Proofs.C04ObjP Proofs.C04RtP4 Proofs.C04MainP Proofs.C04WitP.
+From BP Require Import Proofs.C04Def Proofs.C04ScalarP Proofs.C04CalP Proofs.C04CalSweepP Proofs.C04ObjP Proofs.C04RtP4 Proofs.C04InstP Proofs.C04DumpsP Proofs.C04MainP Proofs.C04WitP.
 
 (* ---- the oracles inside the model, proved rather than assumed ---- *)
 Theorem C04_base64_inverse : forall bs, b64decode (b64encode bs) = Ok bs.
@@ -42,23 +42,32 @@ Theorem C04_norm_faithful : forall sc m, wf_schema sc = true -> good sc m = true
 Proof. intros sc m W G. exact (norm_faithful sc W m G). Qed.
 Print Assumptions C04_norm_faithful.
 
-(* ---- the property, classmethod form, dict path, both casings.
-   _partial: the instance form on a fresh object (o.from_dict) is covered by the correspondence check only. ---- *)
-Theorem C04_dict_rt_partial : forall sc cs m,
+(* ---- C04_dumps_total: to_dict(m) is json.dumps-serialisable (str / int / float / bool / None / list / dict with
+        str-able keys only; bytes, datetime, timedelta, Message objects never appear). No json_supported, no keys_ok. ---- *)
+Theorem C04_dumps_total : forall sc cs m,
+  wf_schema sc = true -> in_range sc m = true -> oneof_ok sc m = true -> dumpsable (to_dict cs false sc m) = true.
+Proof. exact dumps_total_main. Qed.
+Print Assumptions C04_dumps_total.
+
+(* ---- C04_dict_rt: the dict path, for casing cs in {CAMEL, SNAKE} (any cs with keys_ok), BOTH forms:
+        Cls.from_dict(d) and Cls().from_dict(d) build the same message m', m' == m, bytes(m') = bytes(m) ---- *)
+Theorem C04_dict_rt : forall sc cs m,
   wf_schema sc = true -> keys_ok cs sc = true -> good sc m = true ->
   exists m', from_dict_cls sc (ocls m) (to_dict cs false sc m) = Ok m' /\
+             from_dict_inst sc (new sc (ocls m)) (to_dict cs false sc m) = Ok m' /\
              obj_eq sc m' m = true /\ enc_obj sc m' = enc_obj sc m.
 Proof. exact dict_rt. Qed.
-Print Assumptions C04_dict_rt_partial.
+Print Assumptions C04_dict_rt.
 
-(* ---- the same through json.loads(json.dumps(.)): object keys arrive as strings, NaN as the one NaN.
-   _partial: instance form as above; that json.dumps accepts the dict is C04_dumps_total's business. ---- *)
-Theorem C04_text_rt_partial : forall sc cs m,
+(* ---- C04_text_rt: the same through json.dumps / json.loads (json.dumps succeeds; object keys arrive as strings):
+        Cls.from_dict(json.loads(json.dumps(d))) and Cls().from_json(m.to_json()) ---- *)
+Theorem C04_text_rt : forall sc cs m,
   wf_schema sc = true -> keys_ok cs sc = true -> good sc m = true ->
-  exists m', from_dict_cls sc (ocls m) (text_rt (to_dict cs false sc m)) = Ok m' /\
+  exists m', json_rt_cls cs false sc m = Ok m' /\
+             json_rt_inst cs false sc m (new sc (ocls m)) = Ok m' /\
              obj_eq sc m' m = true /\ enc_obj sc m' = enc_obj sc m.
 Proof. exact text_rt_rt. Qed.
-Print Assumptions C04_text_rt_partial.
+Print Assumptions C04_text_rt.
 
 (* ---- the classes of values outside json_supported really fail (each replayed on the implementation) ---- *)
 Theorem C04_unknown_fields_refuted :
@@ -110,7 +119,7 @@ Example C04_hypotheses_satisfiable :
 Proof. vm_compute. repeat split; reflexivity. Qed.
 
 Example C04_nonvacuous :
-  match from_dict_cls ex_sc 11 (text_rt (to_dict SNAKE false ex_sc ex_m)) with
+  match json_rt_inst SNAKE false ex_sc ex_m (new ex_sc 11) with
   | Ok m' => obj_eq ex_sc m' ex_m = true /\ enc_obj ex_sc m' = enc_obj ex_sc ex_m /\
              match enc_obj ex_sc ex_m with Ok b => (70 <? Zlength b) = true | Err _ => False end
   | Err _ => False
